@@ -191,7 +191,105 @@ func errTypeOf(v ssa.Value) string {
 	return "?" + v.String()
 }
 
+// anyTypedArgs: parameters of built-in helpers whose type the specification leaves open (`any`): a value of a type the
+// helper has no use for is an ordinary argument (contains: not found; to_array: wrapped; to_number: null; to_string:
+// serialised; type: its name), never an invalid-type error.
+var anyTypedArgs = map[string][]int{
+	"evaluator.contains": {1},
+	"evaluator.toArray":  {0},
+	"evaluator.toNumber": {0},
+	"evaluator.toString": {0},
+	// type(): a value that is none of the JSON carriers (a foreign Go value) has no type name; E-KINDS and E-RESULT-TYPES
+	// decide its table
+}
+
+// ruleAnyTypedArgs: in the helpers of anyTypedArgs, the failure edge of a type test of such a parameter reaches no return
+// that carries *InvalidTypeError (edges on which another test of the same parameter succeeded are left alone).
+func ruleAnyTypedArgs(p *Program, r *Reporter) {
+	for _, fn := range p.ReachFuncs(p.Eval) {
+		idxs, ok := anyTypedArgs[p.FuncName(fn)]
+		if !ok || fn.Parent() != nil {
+			continue
+		}
+		res := fn.Signature.Results()
+		if res.Len() == 0 || !isErrorType(res.At(res.Len()-1).Type()) {
+			for _, k := range idxs {
+				r.Trivial(fn.Pos(), fmt.Sprintf("%s argument #%d is any", p.FuncName(fn), k+1), "the helper has no error result")
+			}
+			continue
+		}
+		for _, k := range idxs {
+			key := fmt.Sprintf("%s argument #%d is any", p.FuncName(fn), k+1)
+			if k >= len(fn.Params) {
+				r.Unknown(fn.Pos(), key, "the helper has no such parameter")
+				continue
+			}
+			prm := fn.Params[k]
+			isTestOfPrm := func(iff *ssa.If) bool {
+				ex, ok := iff.Cond.(*ssa.Extract)
+				if !ok {
+					return false
+				}
+				ta, ok := ex.Tuple.(*ssa.TypeAssert)
+				return ok && isParamValue(ta.X, prm)
+			}
+			tests, bad := 0, ""
+			var badPos token.Pos
+			for _, tt := range typeTestsOf(fn) {
+				if !isParamValue(tt.src, prm) || tt.ok == nil {
+					continue
+				}
+				for _, ref := range *tt.ok.Referrers() {
+					iff, ok := ref.(*ssa.If)
+					if !ok {
+						continue
+					}
+					tests++
+					seen := map[*ssa.BasicBlock]bool{}
+					var walk func(b *ssa.BasicBlock)
+					walk = func(b *ssa.BasicBlock) {
+						if seen[b] || bad != "" {
+							return
+						}
+						seen[b] = true
+						if len(b.Instrs) == 0 {
+							return
+						}
+						switch last := b.Instrs[len(b.Instrs)-1].(type) {
+						case *ssa.Return:
+							if et := errTypeOf(last.Results[len(last.Results)-1]); strings.HasSuffix(et, "InvalidTypeError") {
+								bad, badPos = fmt.Sprintf("a value that fails the test %s reaches a return carrying %s: the specification gives this argument the type any, so no type of it is an error", tt.what, et), last.Pos()
+							}
+						case *ssa.If:
+							if isTestOfPrm(last) {
+								walk(b.Succs[1]) // another type of the same argument matched on the true edge: not this test's business
+								return
+							}
+							walk(b.Succs[0])
+							walk(b.Succs[1])
+						default:
+							for _, s := range b.Succs {
+								walk(s)
+							}
+						}
+					}
+					walk(iff.Block().Succs[1])
+				}
+			}
+			switch {
+			case bad != "":
+				r.Bad(badPos, key, bad)
+			case tests == 0:
+				r.Trivial(fn.Pos(), key, "the helper applies no type test to this parameter")
+			default:
+				r.OK(fn.Pos(), key, fmt.Sprintf("%d type tests of the parameter: no failure edge reaches an invalid-type return", tests))
+			}
+		}
+	}
+}
+
 func ruleETypeCheck(p *Program, r *Reporter) {
+	ruleAnyTypedArgs(p, r)
 	for _, fn := range p.ReachFuncs(p.Eval) {
 		res := fn.Signature.Results()
 		if res.Len() != 2 || !isErrorType(res.At(1).Type()) {
@@ -907,4 +1005,30 @@ func ruleETypeFirst(p *Program, r *Reporter) {
 			r.OK(fn.Pos(), key, fmt.Sprintf("%d value-fault paths, each after every tested argument passed its type test", nValue))
 		}
 	}
+}
+
+// isParamValue: v is the parameter, or a load of the variable the parameter was spilled to because a closure captures it
+// (the variable is assigned nothing else).
+func isParamValue(v ssa.Value, prm *ssa.Parameter) bool {
+	if v == prm {
+		return true
+	}
+	ld, ok := v.(*ssa.UnOp)
+	if !ok || ld.Op != token.MUL {
+		return false
+	}
+	al, ok := ld.X.(*ssa.Alloc)
+	if !ok {
+		return false
+	}
+	stores := 0
+	for _, ref := range *al.Referrers() {
+		if st, ok := ref.(*ssa.Store); ok && st.Addr == al {
+			if st.Val != prm {
+				return false
+			}
+			stores++
+		}
+	}
+	return stores == 1
 }
